@@ -119,6 +119,72 @@ impl From<RecvError> for TryRecvError {
     }
 }
 
+#[derive(PartialEq, Eq, Clone, Copy, Debug)]
+pub enum RecvTimeoutError {
+    Timeout,
+    Disconnected,
+}
+impl RecvTimeoutError {
+    pub fn is_timeout(&self) -> bool {
+        matches!(self, RecvTimeoutError::Timeout)
+    }
+    pub fn is_disconnected(&self) -> bool {
+        matches!(self, RecvTimeoutError::Disconnected)
+    }
+}
+impl fmt::Display for RecvTimeoutError {
+    fn fmt(&self, f: &mut fmt::Formatter<'_>) -> fmt::Result {
+        match self {
+            RecvTimeoutError::Timeout => f.write_str("timed out waiting on receive operation"),
+            RecvTimeoutError::Disconnected => f.write_str("channel is empty and disconnected"),
+        }
+    }
+}
+impl std::error::Error for RecvTimeoutError {}
+impl From<RecvError> for RecvTimeoutError {
+    fn from(_: RecvError) -> Self {
+        RecvTimeoutError::Disconnected
+    }
+}
+
+#[derive(PartialEq, Eq, Clone, Copy)]
+pub enum SendTimeoutError<T> {
+    Timeout(T),
+    Disconnected(T),
+}
+impl<T> SendTimeoutError<T> {
+    pub fn into_inner(self) -> T {
+        match self {
+            SendTimeoutError::Timeout(t) | SendTimeoutError::Disconnected(t) => t,
+        }
+    }
+    pub fn is_timeout(&self) -> bool {
+        matches!(self, SendTimeoutError::Timeout(_))
+    }
+    pub fn is_disconnected(&self) -> bool {
+        matches!(self, SendTimeoutError::Disconnected(_))
+    }
+}
+impl<T> fmt::Debug for SendTimeoutError<T> {
+    fn fmt(&self, f: &mut fmt::Formatter<'_>) -> fmt::Result {
+        f.write_str("SendTimeoutError(..)")
+    }
+}
+impl<T> fmt::Display for SendTimeoutError<T> {
+    fn fmt(&self, f: &mut fmt::Formatter<'_>) -> fmt::Result {
+        match self {
+            SendTimeoutError::Timeout(_) => f.write_str("timed out waiting on send operation"),
+            SendTimeoutError::Disconnected(_) => f.write_str("sending on a disconnected channel"),
+        }
+    }
+}
+impl<T: Send> std::error::Error for SendTimeoutError<T> {}
+impl<T> From<SendError<T>> for SendTimeoutError<T> {
+    fn from(e: SendError<T>) -> Self {
+        SendTimeoutError::Disconnected(e.0)
+    }
+}
+
 // ------------------------------------------------------------------------------------------------
 // channel state
 
@@ -415,6 +481,22 @@ impl<T> Sender<T> {
             Err(m) => Err(TrySendError::Full(m)),
         }
     }
+    /// `send` with a timeout (virtual time): the message goes out, or the timer wins the select.
+    pub fn send_timeout(&self, msg: T, timeout: Duration) -> Result<(), SendTimeoutError<T>> {
+        let timer = after(timeout);
+        let idx = {
+            let arms: &[&dyn SelArm] = &[&SendArm(self), &timer];
+            run_select(arms, false)
+        };
+        if idx == Some(0) {
+            __send_now(self, msg).map_err(|e| SendTimeoutError::Disconnected(e.0))
+        } else {
+            Err(SendTimeoutError::Timeout(msg))
+        }
+    }
+    pub fn send_deadline(&self, msg: T, deadline: Instant) -> Result<(), SendTimeoutError<T>> {
+        self.send_timeout(msg, deadline.saturating_duration_since(Instant::now()))
+    }
     pub fn send(&self, msg: T) -> Result<(), SendError<T>> {
         kernel::point();
         let mut msg = msg;
@@ -533,6 +615,22 @@ impl<T> Receiver<T> {
             Some(Err(_)) => Err(TryRecvError::Disconnected),
             None => Err(TryRecvError::Empty),
         }
+    }
+    /// `recv` with a timeout (virtual time): a message arrives, or the timer wins the select.
+    pub fn recv_timeout(&self, timeout: Duration) -> Result<T, RecvTimeoutError> {
+        let timer = after(timeout);
+        let idx = {
+            let arms: &[&dyn SelArm] = &[self, &timer];
+            run_select(arms, false)
+        };
+        if idx == Some(0) {
+            __recv_now(self).map_err(|_| RecvTimeoutError::Disconnected)
+        } else {
+            Err(RecvTimeoutError::Timeout)
+        }
+    }
+    pub fn recv_deadline(&self, deadline: Instant) -> Result<T, RecvTimeoutError> {
+        self.recv_timeout(deadline.saturating_duration_since(Instant::now()))
     }
     pub fn recv(&self) -> Result<T, RecvError> {
         loop {
